@@ -172,9 +172,17 @@ func main() {
 	dump := flag.String("dump", "", "dump SSA of the named function and exit")
 	solver := flag.String("solver", "z3-new", "primary solver kind")
 	seed := flag.Int64("seed", 0, "seed for witness sample selection (verdicts do not depend on it)")
+	renamePrefix := flag.String("rename-harness", "", "maintenance: prefix every package-level helper declared in the harness files with this string and exit")
 	flag.Parse()
 
 	t0 := time.Now()
+	if *renamePrefix != "" {
+		if err := renameHarness(*repo, *verif, *tags, *renamePrefix); err != nil {
+			fmt.Fprintln(os.Stderr, err)
+			os.Exit(2)
+		}
+		return
+	}
 	P, err := loadProgram(*repo, *verif, *tags)
 	if err != nil {
 		fmt.Fprintln(os.Stderr, "gosym: load failed:", err)
